@@ -48,6 +48,7 @@ def check(ctx):
         ctx.rule("C10-R5", "voxel grid invariants: a voxel size is recomputed only from a positive extent; periodic y / z ranges are clamped to one period as the last adjustment before the loop")
         r5_voxel_invariants(ctx, cf)
         r5_face_tests(ctx, cf)
+        r5_y_range_of_a_z_voxel(ctx, cf)
     finally:
         C.MEMBER_OBJECTS = False
 
@@ -366,3 +367,44 @@ def r5_face_tests(ctx, cf):
     ctx.decide(lead == "usePeriodic" and flat == want, "C10-R5", C.line(decl[0]), NL, "Voxels::getNeighbors",
                "needPeriodic = usePeriodic and (within maxDistance of a y or z face, same axis on both sides of each test, or the x range leaves the cell)", "",
                "the face tests are %s (expected %s): an atom near the face whose test is missing or uses another axis's box length is searched without periodic images" % (flat, want))
+
+
+def r5_y_range_of_a_z_voxel(ctx, cf):
+    """For a z voxel the y voxels visited are shifted by boxz*c_y, boxz = floor(z/nz) being the periodic copy the *loop index* stands for.
+    That is one copy per voxel - but a voxel about half a box away in z holds atoms on both sides of the half-box boundary, some of which are
+    nearest through the neighbouring copy, whose y differs by c_y.  With c_y != 0 (triclinic) a single offset therefore loses pairs as soon
+    as the cutoff comes within a voxel of c_z/2.  Accepted: under `triclinic` the y range is the whole row 0 .. ny-1 (the corner test that
+    follows prunes), the single-offset form only when the cell is not triclinic.  Any other form is left undecided."""
+    gn = cf.function(NL, "getNeighbors")
+    g = C.guards(gn)
+    asg = []
+    for n in C.walk(gn):
+        if n["kind"] in ("BinaryOperator", "CompoundAssignOperator") and n.get("opcode") in ("=", "-=", "+=") and C.ref_name(C.kids(n)[0]) in ("starty", "endy"):
+            asg.append(n)
+        if n["kind"] == "VarDecl" and n.get("name") in ("starty", "endy") and C.kids(n):
+            asg.append(n)
+    shifted = [n for n in asg if n["kind"] != "VarDecl" and "yoffset" in C.text(C.kids(n)[1])]
+    if not shifted:
+        ctx.undecided("C10-R5", C.line(gn), NL, "Voxels::getNeighbors", "y range of a z voxel", "the adjustment of starty / endy by yoffset was not found: the way the y range follows the periodic copy in z is not recognised")
+        return
+    def known_false(facts, name):
+        """(name, False) directly, or from a refuted conjunction whose other conjuncts hold: not (A && name) and A  =>  not name"""
+        facts = [(re.sub(r"this\.", "", t), p_) for t, p_ in facts]
+        if (name, False) in facts:
+            return True
+        for t, p_ in facts:
+            if not p_ and "&&" in t:
+                parts = [x.strip("()") for x in t.strip("()").split("&&")]
+                if name in parts and all((x, True) in facts or ("(%s)" % x, True) in facts for x in parts if x != name):
+                    return True
+        return False
+    bad = [n for n in shifted if not known_false(g.get(n["id"], []), "triclinic")]
+    full = [n for n in asg if n["kind"] != "VarDecl" and n.get("opcode") == "=" and ("triclinic", True) in [(t.replace("this.", ""), p_) for t, p_ in g.get(n["id"], [])]
+            and re.sub(r"[\s()]|this\.", "", C.text(C.kids(n)[1])) in ("0", "ny-1")]
+    if bad:
+        ctx.violated("C10-R5", C.line(bad[0]), NL, "Voxels::getNeighbors", "triclinic cells: the y voxels visited for a z voxel do not hinge on one periodic copy of it",
+                     "starty / endy are shifted by yoffset = floor(z/nz)*c_y also when the cell is triclinic: a z voxel half a box away holds atoms that are nearest through the other copy "
+                     "(y differs by c_y), so pairs are lost once the cutoff comes within a voxel of c_z/2 - e.g. 4.77/4.94/4.50 nm, 124.8/60.2/76.9 deg, 300 atoms: 4 of 3550 pairs missing at 1.0 nm, 317 of 5360 at 1.15 nm")
+    else:
+        ctx.decide(len(full) == 2, "C10-R5", C.line(shifted[0]), NL, "Voxels::getNeighbors", "triclinic cells: the whole y row is visited (the corner test prunes); the single-offset range is used for rectangular cells only", "",
+                   "under `triclinic` the y range is not 0 .. ny-1 (%d matching assignments)" % len(full))
